@@ -94,7 +94,7 @@ def kernel_factories():
         "rbf_ad": lambda b: K.RBFKernel(batch_shape=B(b), active_dims=[0, 2]),
         "scale_matern_ad": lambda b: K.ScaleKernel(K.MaternKernel(nu=2.5, ard_num_dims=2, batch_shape=B(b),
                                                                   active_dims=[2, 0]), batch_shape=B(b)),
-        "sum_ad": lambda b: K.RBFKernel(batch_shape=B(b), active_dims=[1]) + K.RQKernel(batch_shape=B(b), active_dims=[0, 2]),
+        "sum_ad": lambda b: K.RBFKernel(batch_shape=B(b), active_dims=[1]) + K.MaternKernel(nu=0.5, batch_shape=B(b), active_dims=[0, 2]),
         "multitask": lambda b: K.MultitaskKernel(K.RBFKernel(batch_shape=B(b)), num_tasks=2, rank=1, batch_shape=B(b)),
         "multitask_matern": lambda b: K.MultitaskKernel(K.MaternKernel(nu=1.5, batch_shape=B(b)), num_tasks=3, rank=2, batch_shape=B(b)),
     }
@@ -286,6 +286,30 @@ def index_expressions(bs, R, Cn, rng, tier, budget):
 
 # ------------------------------------------------------------------ comparison helpers
 
+def _sh(b):
+    return ",".join(str(v) for v in b) if len(b) else "-"
+
+
+def active_reference(name, kernel, x1, x2):
+    """the same kernel without any `active_dims`, applied to the selected input columns"""
+    import copy
+    kc = copy.deepcopy(kernel)
+    if name == "sum_ad":
+        parts = []
+        for sub in kc.kernels:
+            ad = sub.active_dims.clone()
+            for m in sub.modules():
+                if hasattr(m, "active_dims"):
+                    m.active_dims = None
+            parts.append(_dense(sub(x1[..., ad], x2[..., ad])))
+        return (parts[0] + parts[1]).detach()
+    ad = kc.active_dims.clone()
+    for m in kc.modules():
+        if hasattr(m, "active_dims"):
+            m.active_dims = None
+    return _dense(kc(x1[..., ad], x2[..., ad])).detach()
+
+
 def _dense(x):
     return x.to_dense() if hasattr(x, "to_dense") else x
 
@@ -342,6 +366,19 @@ class Cell:
         import gpytorch
         with gpytorch.settings.lazily_evaluate_kernels(lazy):
             return self.kernel(self.x1, self.x2)
+
+
+def cell_rejected(ctx, cell):
+    """the kernel itself raises on (x1, x2) although the batch shapes broadcast"""
+    ctx.count("cells_rejected_by_kernel")
+    ctx.notes.setdefault("cells_rejected", {})[f"{cell.name}:{cell.kb}:{cell.b1}:{cell.b2}"] = cell.err
+    # documented / separately reported limitations: a MultitaskKernel with a batch shape does not accept batched
+    # inputs (explicit Kronecker batch error); RQKernel's alpha alignment under rank-deficient kernel batch is C08's
+    if (cell.name in MULTI_T and cell.kb) or cell.name == "rq_ard":
+        return
+    ctx.case(f"B|{cell.name}|{cell.kb}|{cell.b1}|{cell.b2}|kernel-call")
+    ctx.fail("kernel-call:raises", f"{cell.name} kernel batch {cell.kb}, x1 batch {cell.b1}, x2 batch {cell.b2}: kernel(x1, x2) "
+             f"raises {cell.err} although the batch shapes broadcast", dict(cell.desc(), part="kernel-call"))
 
 
 def check_index(ctx, cell, idx, lazy, part="B"):
@@ -471,7 +508,7 @@ def parse_reply(rep):
     out = {}
     for part in rep.split(";"):
         k, _, v = part.partition("=")
-        out[k] = [] if v in ("-", "") else [int(t) for t in v.split(",")]
+        out[k] = [] if v in ("-", "", "N") else [int(t) for t in v.split(",")]
     return out
 
 
@@ -491,6 +528,8 @@ def part_C(ctx, lines, recs, seedval):
         exprs = [ix for ix in exprs if sum(1 for i in ix if i != "E" and i[0] == "T") <= 1]
         if ctx.quick:
             exprs = exprs[::3]
+        elif len(exprs) > 260:
+            exprs = exprs[:60] + rng.sample(exprs[60:], 200)
         x1flat = cell.x1.reshape(-1, D_IN)
         x2flat = cell.x2.reshape(-1, D_IN)
         ls = cell.kernel.lengthscale.detach().reshape(-1)
@@ -571,10 +610,17 @@ def part_D(ctx, lines, recs, seedval):
 def part_B(ctx, seedval):
     rng = ctx.rng("B")
     names = list(kernel_factories())
-    pats = PATTERNS_QUICK if ctx.quick else all_patterns()
+    allp = all_patterns()
+    extra = [p for p in allp if p not in PATTERNS_QUICK]
     ncell = 0
     for name in names:
         t = MULTI_T.get(name, 1)
+        if ctx.quick:
+            pats = PATTERNS_QUICK
+        elif name == "rbf":
+            pats = PATTERNS_QUICK + extra                       # every (kernel, x1, x2) batch triple
+        else:
+            pats = PATTERNS_QUICK + rng.sample(extra, 10)
         for pi, (kb, b1, b2) in enumerate(pats):
             heavy = name == "rbf" or (name in ("multitask", "rbf_ad") and pi < 4)
             if ctx.quick and not heavy and (pi + names.index(name)) % 3 != 0 and pi > 1:
@@ -582,8 +628,7 @@ def part_B(ctx, seedval):
             n1, n2 = (3, 2) if t > 1 else ((4, 3) if heavy and pi == 0 else (3, 2))
             cell = Cell(name, kb, b1, b2, n1, n2, seedval)
             if not cell.ok:
-                ctx.count("cells_rejected_by_kernel")
-                ctx.notes.setdefault("cells_rejected", {})[f"{name}:{kb}:{b1}:{b2}"] = cell.err
+                cell_rejected(ctx, cell)
                 continue
             ncell += 1
             # lazily evaluated == eager
@@ -592,10 +637,14 @@ def part_B(ctx, seedval):
             if not _close(cell.D_lazy, cell.D_eager):
                 ctx.fail(f"lazy-vs-eager:{name}", f"{name} {kb}/{b1}/{b2}: lazily evaluated kernel differs from eager: "
                          f"{_maxerr(cell.D_lazy, cell.D_eager)}", dict(cell.desc(), part="lazy-vs-eager"))
-            budget = (120 if heavy else 25) if ctx.quick else (1500 if heavy else 300)
+            budget = (120 if heavy else 25) if ctx.quick else (400 if heavy else 150)
             exprs = index_expressions(cell.bs, n1 * t, n2 * t, rng, ctx.tier, budget)
-            if not heavy:
-                keep = 50 if ctx.quick else 1200
+            if not ctx.quick:
+                keep = (2500 if pi == 0 else 450) if name == "rbf" else (700 if heavy else 260)
+                if len(exprs) > keep:
+                    exprs = exprs[:keep // 3] + rng.sample(exprs[keep // 3:], keep - keep // 3)
+            elif not heavy:
+                keep = 50
                 exprs = rng.sample(exprs, min(keep, len(exprs)))
             elif ctx.quick:
                 keep = 700 if (name == "rbf" and pi == 0) else (420 if name == "rbf" else 250)
@@ -609,7 +658,7 @@ def part_B(ctx, seedval):
 
 # ------------------------------------------------------------------ part E: diag, mT, repeat, blocks, kernel[i], expand_batch
 
-def part_E(ctx, seedval, only=None):
+def part_E(ctx, seedval, only=None, lines=None, recs=None):
     import torch
     import gpytorch
     names = list(kernel_factories())
@@ -617,16 +666,41 @@ def part_E(ctx, seedval, only=None):
     if only is not None:
         names, pats = [only[0]], [only[1]]
     flags = _state.get("flags")
+    rngE = ctx.rng("E")
     for name in names:
         t = MULTI_T.get(name, 1)
+        if only is None and not ctx.quick and name not in ("rbf", "rbf_ad", "scale_matern_ad", "sum_ad"):
+            pats = PATTERNS_QUICK + rngE.sample([p for p in all_patterns() if p not in PATTERNS_QUICK], 12)
+        elif only is None and not ctx.quick:
+            pats = all_patterns()
         for pi, (kb, b1, b2) in enumerate(pats):
             if only is None and ctx.quick and name not in ("rbf", "rbf_ad", "scale_matern_ad", "sum_ad") and (pi + names.index(name)) % 2 and pi > 3:
                 continue
             n = 3
             cell = Cell(name, kb, b1, b2, n, n, seedval)     # square, x1 != x2
             if not cell.ok:
+                cell_rejected(ctx, cell)
                 continue
             base = dict(cell.desc())
+            aux_obs = {}
+            # --- active_dims restricts the kernel to exactly those input columns: independent oracle = the same
+            #     kernel without active_dims applied to the selected columns
+            if name in ACTIVE:
+                ctx.case(f"E|{name}|{kb}|{b1}|{b2}|active-dims-columns")
+                try:
+                    with torch.no_grad(), warnings.catch_warnings():
+                        warnings.simplefilter("ignore")
+                        ref = active_reference(name, cell.kernel, cell.x1, cell.x2)
+                    for lz, Dz in ((True, cell.D_lazy), (False, cell.D_eager)):
+                        if not _close(Dz, ref.expand_as(Dz)):
+                            ctx.fail("active_dims:column-selection",
+                                     f"{name} {kb}/{b1}/{b2} lazy={lz}: kernel(x1,x2) differs from the same kernel without "
+                                     f"active_dims applied to the selected columns x[..., active_dims]: {_maxerr(Dz, ref.expand_as(Dz))}",
+                                     dict(base, part="active-dims-columns", lazy=lz))
+                except Exception as e:
+                    cell.restore()
+                    ctx.count("E_rejected")
+                    ctx.notes.setdefault("E_rejections", {})[f"{name}:active-ref"] = f"{type(e).__name__}: {str(e)[:100]}"
             for lazy in (True, False):
                 with torch.no_grad(), gpytorch.settings.lazily_evaluate_kernels(lazy), warnings.catch_warnings():
                     warnings.simplefilter("ignore")
@@ -644,6 +718,8 @@ def part_E(ctx, seedval, only=None):
                             ctx.notes.setdefault("E_rejections", {})[f"{name}:{what}"] = f"{type(e).__name__}: {str(e)[:100]}"
                             continue
                         want = D.diagonal(dim1=-1, dim2=-2)
+                        if lazy and what == "diag-of-lazy-tensor":
+                            aux_obs["diag"] = got
                         if got.shape != want.shape and got.numel() == want.numel() and what == "diag=True":
                             try:
                                 got = got.expand(want.shape)
@@ -658,6 +734,8 @@ def part_E(ctx, seedval, only=None):
                     try:
                         got = _dense(cell.kernel(cell.x1, cell.x2).mT).detach()
                         swapped = _dense(cell.kernel(cell.x2, cell.x1)).detach()
+                        if lazy:
+                            aux_obs["swap"] = swapped
                         if not _close(got, D.mT):
                             ctx.fail("transpose:mT", f"{name} {kb}/{b1}/{b2} lazy={lazy}: kernel(x1,x2).mT differs from the "
                                      f"transposed dense matrix: {_maxerr(got, D.mT)}", dict(base, part="mT", lazy=lazy))
@@ -679,6 +757,8 @@ def part_E(ctx, seedval, only=None):
                             ctx.notes.setdefault("E_rejections", {})[f"{name}:repeat"] = f"{type(e).__name__}: {str(e)[:100]}"
                             continue
                         want = D.repeat(*reps)
+                        if lazy and all(r == 1 for r in reps[:-2]):
+                            aux_obs[("rep", reps[-2], reps[-1])] = got
                         if not _close(got, want):
                             ctx.fail(f"repeat:{'multiout' if t > 1 else 'single'}",
                                      f"{name} {kb}/{b1}/{b2} lazy={lazy}: kernel(x1,x2).repeat{tuple(reps)} differs from the "
@@ -692,18 +772,28 @@ def part_E(ctx, seedval, only=None):
                             m = n * t
                             blocks = {(0, 0): (cell.x1, cell.x1), (0, 1): (cell.x1, cell.x2), (1, 0): (cell.x2, cell.x1),
                                       (1, 1): (cell.x2, cell.x2)}
+                            subs = {}
                             for (bi, bj), (xa, xb) in blocks.items():
                                 sub = _dense(cell.kernel(xa, xb)).detach()
+                                subs[2 * bi + bj] = sub
                                 blk = big[..., bi * m:(bi + 1) * m, bj * m:(bj + 1) * m]
                                 if not _close(blk, sub):
                                     ctx.fail(f"blocks:{'multiout' if t > 1 else 'single'}",
                                              f"{name} {kb}/{b1}/{b2} lazy={lazy}: block ({bi},{bj}) of K on stacked inputs "
                                              f"differs from the separately computed block: {_maxerr(blk, sub)}",
                                              dict(base, part="blocks", block=[bi, bj], lazy=lazy))
+                            if lazy and t == 1 and lines is not None:
+                                lines.append(f"blocks {_sh(b1)} ; {_sh(kb)} ; {n} {n}")
+                                recs.append(("Eblocks", (cell, big, subs), None))
                         except Exception as e:
                             cell.restore()
                             ctx.count("E_rejected")
                             ctx.notes.setdefault("E_rejections", {})[f"{name}:blocks"] = f"{type(e).__name__}: {str(e)[:100]}"
+            # the model's positions for diag / swapped inputs / repeat (single-output kernels)
+            if t == 1 and lines is not None:
+                for (r_, c_) in ((2, 1), (1, 3)):
+                    lines.append(f"aux {_sh(b1)} ; {_sh(b2)} ; {_sh(kb)} ; {n} {n} {r_} {c_}")
+                    recs.append(("Eaux", (cell, dict(aux_obs), (r_, c_)), None))
             # --- kernel[i](x1[i], x2[i]) and expand_batch (kernel-level; independent of the lazy setting)
             if kb and tuple(kb) == cell.bs and t == 1:
                 x1e = cell.x1.expand(*cell.bs, n, D_IN)
@@ -731,6 +821,11 @@ def part_E(ctx, seedval, only=None):
                                      f"{name} batch {kb}: kernel{show_idx(bi)}(x1{show_idx(bi)}, x2{show_idx(bi)}) raises "
                                      f"{type(e).__name__}: {str(e)[:120]}", dict(base, part="kernel-getitem", index=[list(i) for i in bi]))
                         continue
+                    if name in ("rbf", "rbf_ad") and lines is not None:
+                        ad0 = cell.kernel.active_dims
+                        lines.append(f"kget {_sh(kb)} ; {'N' if ad0 is None else ','.join(str(int(v)) for v in ad0)} | {enc_idx(bi)}")
+                        recs.append(("Ekget", (cell, show_idx(bi), None if ki.active_dims is None else ki.active_dims.reshape(-1).tolist(),
+                                               ki.lengthscale.detach().reshape(-1), list(ki.batch_shape)), None))
                     want = cell.D_eager[pidx]
                     if not _close(got, want):
                         ctx.fail(f"kernel-getitem:{'active_dims' if name in ACTIVE else 'params'}",
@@ -769,6 +864,11 @@ def part_E(ctx, seedval, only=None):
                                      f"{name} batch {kb}: kernel.expand_batch({new})(x1, x2) raises {type(e).__name__}: "
                                      f"{str(e)[:120]}", dict(base, part="expand_batch", new=new))
                         continue
+                    if name in ("rbf", "rbf_ad") and lines is not None:
+                        ad0 = cell.kernel.active_dims
+                        lines.append(f"kexp {_sh(kb)} ; {_sh(new)} ; {'N' if ad0 is None else ','.join(str(int(v)) for v in ad0)}")
+                        recs.append(("Ekget", (cell, f"expand_batch({new})", None if ke.active_dims is None else ke.active_dims.reshape(-1).tolist(),
+                                               ke.lengthscale.detach().reshape(-1), list(ke.batch_shape)), None))
                     if not _close(got, want):
                         ctx.fail(f"expand_batch:{'active_dims' if name in ACTIVE else 'params'}",
                                  f"{name} batch {kb}: kernel.expand_batch({new})(x1, x2) differs from the expanded result: "
@@ -821,7 +921,8 @@ def compare_driver(ctx, lines, recs):
                     m2 = x2flat[torch.tensor(r["x2"], dtype=torch.long)].reshape(*sb, nc, D_IN)
                     okobs = torch.equal(ox1.expand_as(m1), m1) and torch.equal(ox2.expand_as(m2), m2)
                     mt = ls[torch.tensor(r["th"], dtype=torch.long)].reshape(*sb, 1, 1)
-                    okobs = okobs and torch.equal(ols.expand_as(mt), mt)
+                    # (softplus of the same raw value may differ by an ulp between torch's vectorised and scalar paths)
+                    okobs = okobs and torch.allclose(ols.expand_as(mt), mt, rtol=1e-12, atol=0.0)
                 except Exception:
                     okobs = False
             if not (okshape and okv and okobs):
@@ -830,6 +931,55 @@ def compare_driver(ctx, lines, recs):
                     ctx.broke("correspondence", "lazy path model",
                               f"`{line}`: shape ok={okshape} positions ok={okv} x1/x2/params of the returned lazy tensor ok={okobs}; "
                               f"model {rep[:200]}")
+        elif kind == "Eaux":
+            cell, obs, (r_, c_) = data
+            ctx.case("Em|" + cell.name + "|" + line)
+            if r in ("none",):
+                ctx.broke("correspondence", "aux model", f"`{line}`: model returns none")
+                continue
+            flatD = cell.D_lazy.reshape(-1)
+            n = cell.n1
+
+            def via(pos, shape):
+                return flatD[torch.tensor(pos, dtype=torch.long)].reshape(shape)
+            checks = []
+            if "diag" in obs and rep.find("diag=N") < 0:
+                checks.append(("diag", obs["diag"], via(r["diag"], cell.bs + (n,))))
+            if "swap" in obs:
+                checks.append(("swap", obs["swap"], via(r["swap"], cell.bs + (cell.n2, cell.n1))))
+            if ("rep", r_, c_) in obs:
+                checks.append(("repeat", obs[("rep", r_, c_)], via(r["rep"], cell.bs + (cell.n1 * r_, cell.n2 * c_))))
+            for what, got, want_ in checks:
+                if not _close(got, want_):
+                    ctx.fail(f"{'diag' if what == 'diag' else ('transpose' if what == 'swap' else 'repeat')}:model-positions",
+                             f"{cell.name} {cell.kb}/{cell.b1}/{cell.b2}: {what} differs from the dense entries that the Lean model "
+                             f"names for it: {_maxerr(got, want_)}", dict(cell.desc(), part=what, lazy=True))
+        elif kind == "Eblocks":
+            cell, big, subs = data
+            ctx.case("Em|" + cell.name + "|" + line)
+            if r in ("none",):
+                ctx.broke("correspondence", "blocks model", f"`{line}`: model returns none")
+                continue
+            flats = {k: v.reshape(-1) for k, v in subs.items()}
+            want_ = torch.stack([flats[b][o] for b, o in zip(r["blk"], r["off"])]).reshape(big.shape)
+            if not _close(big, want_):
+                ctx.fail("blocks:model-positions", f"{cell.name} {cell.kb}/{cell.b1}/{cell.b2}: K on stacked inputs differs from "
+                         f"the block entries that the Lean model names: {_maxerr(big, want_)}", dict(cell.desc(), part="blocks", lazy=True))
+        elif kind == "Ekget":
+            cell, what, ad_real, ls_real, bshape_real = data
+            ctx.case("Em|" + cell.name + "|" + line)
+            if r in ("none",):
+                ctx.broke("correspondence", "kernel getitem model", f"`{line}`: model returns none")
+                continue
+            ad_model = None if rep.split(";")[1] == "ad=N" else r["ad"]
+            ls0 = cell.kernel.lengthscale.detach().reshape(-1)
+            ok = ad_model == ad_real and r["shape"] == bshape_real and len(r["th"]) == ls_real.numel() and \
+                torch.allclose(ls0[torch.tensor(r["th"], dtype=torch.long)], ls_real, rtol=1e-12, atol=0.0)
+            if not ok:
+                mism["C"] += 1
+                if mism["C"] <= 3:
+                    ctx.broke("correspondence", "Kernel.__getitem__/expand_batch model",
+                              f"`{line}` ({what}): model {rep[:160]}; real active_dims {ad_real}, batch shape {bshape_real}")
         elif kind == "D":
             cell, idx, taken, want = data
             if taken is None:
@@ -883,7 +1033,7 @@ def correspondence(ctx, want_driver=True):
     lines, recs = [], []
     try:
         part_B(ctx, seedval)
-        part_E(ctx, seedval)
+        part_E(ctx, seedval, lines=lines if want_driver else None, recs=recs if want_driver else None)
         part_D(ctx, lines, recs, seedval)
         if want_driver:
             part_A(ctx, lines, recs)
@@ -894,7 +1044,7 @@ def correspondence(ctx, want_driver=True):
     if want_driver:
         compare_driver(ctx, lines, recs)
     # run.py prints the first 8 distinct keys: one representative per defect class first
-    prio = ["kernel-getitem:active_dims", "expand_batch:active_dims", "getitem:multiout", "getitem:batch-slice-of-broadcast-dim",
+    prio = ["active_dims:column-selection", "kernel-call", "kernel-getitem:active_dims", "expand_batch:active_dims", "getitem:multiout", "getitem:batch-slice-of-broadcast-dim",
             "repeat:", "diag:", "transpose:", "blocks:", "lazy-vs-eager", "getitem:values", "getitem:empty", "kernel-getitem",
             "expand_batch", "rejects-valid-index", "linear_operator"]
 
@@ -923,6 +1073,10 @@ def replay(ctx, payload):
         seedval = payload.get("seed", 0)
         cell = Cell(c["kernel"], tuple(c["kernel_batch"]), tuple(c["x1_batch"]), tuple(c["x2_batch"]), c["n1"], c["n2"], seedval)
         sub = Ctx0()
+        if not cell.ok:
+            return False
+        if c["part"] == "kernel-call":
+            return True
         if c["part"] == "index":
             idx = tuple("E" if i == "E" else tuple(tuple(v) if isinstance(v, list) else v for v in i) for i in c["index"])
             check_index(sub, cell, idx, c["lazy"])
